@@ -268,6 +268,20 @@ class DataHeader(BitsInterface, BytesInterface):
 
     @staticmethod
     def from_bits(bits: bitarray) -> "DataHeader":
+        header: DataHeader = DataHeader.fields_from_bits(bits)
+        if len(bits) >= 96 and ba2int(bits[80:96]) > 0:
+            # the verdict on a received header is about the bits that were received, not about the
+            # re-serialised fields (reserved bits are written as zeros, an undefined SAP / data format /
+            # UDT format value is kept as the Reserved member)
+            header.crc_ok = CRC16.check(
+                bitarray(bits[:80], endian="big").tobytes(),
+                ba2int(bits[80:96]),
+                CrcMasks.DataHeader,
+            )
+        return header
+
+    @staticmethod
+    def fields_from_bits(bits: bitarray) -> "DataHeader":
         dpf: DataPacketFormats = DataPacketFormats.from_bits(bits[4:8])
         if dpf == DataPacketFormats.DataPacketConfirmed:
             return DataHeader(
